@@ -128,6 +128,9 @@ func randString(cnt any, letters string) (string, error) {
 	if n == 0 {
 		n = 1
 	}
+	if n < 0 {
+		return "", fmt.Errorf("randString length should not be negative, got %d", n)
+	}
 	return str.RandStringRunes(n, letters), nil
 }
 
